@@ -426,6 +426,59 @@ func (e *emitter) onRespLocked(list []ast.Stmt) {
 	}
 }
 
+// preludeReturns lists the early returns of a statement list: each must be a top-level `if c { ...; return }` without else.
+func preludeReturns(fn string, list []ast.Stmt) []string {
+	var out []string
+	for i, st := range list {
+		ifs, isIf := st.(*ast.IfStmt)
+		if isIf && ifs.Else == nil && len(ifs.Body.List) > 0 {
+			if _, ok := ifs.Body.List[len(ifs.Body.List)-1].(*ast.ReturnStmt); ok {
+				// no other return nested in the body
+				n := 0
+				ast.Inspect(ifs.Body, func(x ast.Node) bool {
+					if _, ok := x.(*ast.ReturnStmt); ok {
+						n++
+					}
+					return true
+				})
+				if n != 1 {
+					fail("%s: %s: nested returns in an early-return block", pos(st), fn)
+				}
+				prev := ""
+				if i > 0 {
+					if _, ok := list[i-1].(*ast.AssignStmt); ok && ifs.Init == nil {
+						prev = src(list[i-1])
+					}
+				}
+				c := src(ifs.Cond)
+				if ifs.Init != nil {
+					c = src(ifs.Init) + "; " + c
+				}
+				out = append(out, prev+" | "+c)
+				continue
+			}
+		}
+		ast.Inspect(st, func(x ast.Node) bool {
+			if _, ok := x.(*ast.FuncLit); ok {
+				return false
+			}
+			if r, ok := x.(*ast.ReturnStmt); ok {
+				fail("%s: %s: a return outside the recognised early-return shape before the message is handed on: %s", pos(r), fn, src(st))
+			}
+			return true
+		})
+	}
+	return out
+}
+
+func coqStrings(xs []string) string {
+	var q []string
+	for _, x := range xs {
+		q = append(q, "\""+strings.ReplaceAll(x, "\"", "\"\"")+"\"")
+	}
+	return "[" + strings.Join(q, ";\n   ") + "]"
+}
+
 func main() {
 	repo := flag.String("repo", "/repo", "repository root")
 	out := flag.String("out", "", "output .v file")
@@ -602,12 +655,32 @@ func main() {
 	var oe emitter
 	oe.onRespLocked(or.Body.List[lockAt:])
 
+	// The part of onResponse before the lock (and all of onRequest up to the handler call) can DROP a message: every early return
+	// is listed, in order, as "<statement before the if> | <condition>"; a return anywhere else in that part fails closed.
+	respPrelude := preludeReturns("onResponse", or.Body.List[:lockAt])
+	oq := funcs["onRequest"]
+	if oq == nil {
+		fail("onRequest not found")
+	}
+	handlerAt := -1
+	for i, st := range oq.Body.List {
+		if strings.HasPrefix(src(st), "handler(w, newMsg)") {
+			handlerAt = i
+		}
+	}
+	if handlerAt < 0 {
+		fail("onRequest: the handler call `handler(w, newMsg)` was not found at top level")
+	}
+	reqPrelude := preludeReturns("onRequest", oq.Body.List[:handlerAt])
+
 	var b strings.Builder
 	b.WriteString("(* GENERATED by translate/reqresp from pkg/p2p/message_protocol.go - do not edit. *)\n")
-	b.WriteString("From Coq Require Import List NArith.\nFrom LE Require Import P2P.ReqResp.\nImport ListNotations.\nLocal Open Scope N_scope.\n\n")
+	b.WriteString("From Coq Require Import List NArith String.\nFrom LE Require Import P2P.ReqResp.\nImport ListNotations.\nLocal Open Scope N_scope.\n\n")
 	b.WriteString("Definition gen_send_skel : list tok :=\n  [" + strings.Join(se.toks, "; ") + "].\n\n")
 	b.WriteString("Definition gen_onresp_skel : list tok :=\n  [" + strings.Join(oe.toks, "; ") + "].\n\n")
-	b.WriteString(fmt.Sprintf("Definition gen_max_retries : N := %d.\nDefinition gen_timeout_ms : N := %d.\n", retries, timeoutMs))
+	b.WriteString(fmt.Sprintf("Definition gen_max_retries : N := %d.\nDefinition gen_timeout_ms : N := %d.\n\n", retries, timeoutMs))
+	b.WriteString("Definition gen_onresp_drops : list String.string :=\n  " + coqStrings(respPrelude) + "%string.\n\n")
+	b.WriteString("Definition gen_onreq_drops : list String.string :=\n  " + coqStrings(reqPrelude) + "%string.\n")
 	if *out == "" {
 		fmt.Print(b.String())
 		return
